@@ -9,12 +9,26 @@ PLAN = dict(
         thorough=[(R, "thorough", 16), (D, "quick", 16), (M, "mini", 8)],
     ),
     rule=("cases are (a) single lines enumerating, round-robin, every cell of the table "
-          "{14 file-name classes} + {18 command words x 8 argument classes} + {22 unknown '@' words x 3}, "
+          "{16 file-name classes} + {18 command words x 10 argument classes} + {27 unknown '@' words x 3}, "
           "each parsed alone by PlistEntry::from_bytes and as a one-line document with and without the "
-          "final newline; (b) random documents of 0-12 lines (70% all valid, 20% one faulty line, 10% "
+          "final newline; the classes include 'special' (a dictionary of ~50 prefixes that tools treat "
+          "specially - UTF-8/UTF-16 byte order marks, './', '/', '#', quotes, backslash, '%D/', '${..}', NUL, "
+          "ESC - in front of command-like text such as '@name x', and of suffixes such as backslash, '/', CR, "
+          "BOM: such a line does not begin with '@' and is a file holding all its bytes; the same tokens "
+          "in front of, inside and behind arguments), 'long' / 'lead-long' (60-5000 byte names and arguments "
+          "behind 0-200 blanks) and arguments from pools of realistic pkgsrc texts per command kind; "
+          "(b) random documents of 0-12 lines (70% all valid, 20% one faulty line, 10% "
           "several) with blank / blank-only lines sprinkled everywhere and the final newline toggled; "
           "(c) documents that place a 1-3 character line (or the lone '@') in only/first/middle/last "
-          "position with and without the final newline. The generator knows the expected PlistEntry (or "
+          "position with and without the final newline; (d) block-alignment documents: 1-3 stress lines "
+          "(blank-only lines of 1-400 blanks/tabs and of k*block +-2, 255-257, 4095-4097, 65535-65537 blanks; "
+          "names and command arguments of the same lengths behind 0-200 blanks; one non-blank byte in a run "
+          "of blanks; commands whose argument is blanks only; blanks followed by command text) each starting "
+          "at, or 1-2 bytes next to, a multiple of 16/32/64/128/256/512/1024/4096/8192/65536 bytes from the "
+          "start of the document (filler lines make up the offset), often ending on a block boundary, last "
+          "line with and without newline; (e) large documents of 13-600 lines (thorough 800) mixing ordinary "
+          "and stress lines, and one document of 128 KiB - 2 MiB per shard (very many lines / very long "
+          "lines). The generator knows the expected PlistEntry (or "
           "error kind) of every line. A document is non-trivial when it has >= 2 entry lines and a blank "
           "line, an unterminated last line or a one-character line; a single line is non-trivial when it "
           "is one character long or contains a blank, '@' or non-ASCII byte. Distinct = distinct document "
@@ -32,7 +46,7 @@ PLAN = dict(
                "per-line homomorphism law over the public list views, and metamorphic Plist == under blank-line "
                "insertion / final-newline toggling (must stay equal) and line deletion / duplication / swap (must "
                "differ); release + overflow-checking debug build, Miri shard in thorough"),
-    level_text=("Exploration: Plist::from_bytes / PlistEntry::from_bytes are driven with ~8x10^5 (quick) to ~6x10^6 "
+    level_text=("Exploration: Plist::from_bytes / PlistEntry::from_bytes are driven with ~9x10^5 (quick) to ~7x10^6 "
                 "(thorough) generated lines and documents and every result is compared with the entry sequence or "
                 "error kind known by construction; held means held on the inputs generated, whose line-length x "
                 "position x final-newline cells and command x argument-class cells are all populated."),
@@ -42,7 +56,10 @@ PLAN = dict(
         "bytes 0x0B, 0x0C, 0x0D, 0x1C-0x1F, 0x85, 0xA0 as the first non-blank byte of a line or of an argument, or as "
         "the only content of a line (char::is_whitespace / is_ascii_whitespace / 'blank' disagree; DESIGN.md section 4)",
         "lines containing LF handed to PlistEntry::from_bytes directly",
-        "documents longer than 12 entry lines or lines longer than 5000 bytes",
+        "documents of more than ~4 MiB or ~10^5 lines; single lines longer than 200 000 bytes; alignment to blocks "
+        "larger than 65536 bytes",
+        "special prefixes that are Unicode white space when decoded (U+00A0, U+0085, U+3000 ...): only tokens whose "
+        "bytes are non-blank under every classification are used",
         "which error is reported when a document has several faulty lines; the kind of error for a wrong @option value",
     ],
 )
